@@ -418,8 +418,9 @@ def figure_case(r, s, rng, i):
     """a figure (an image alone in its paragraph) with a very short alternative text: the text is the caption in every format"""
     alt = rng.choice(FIG_ALTS)
     title = rng.choice(['', '', ' "T7"'])
-    form = rng.choice(['![%s](img.png%s)', '![%s][f1]\n\n[f1]: img.png%s'])
-    text = 'qa0q\n\n' + form % (alt, title) + '\n\nqb0q\n'
+    # an image alone in its paragraph is a figure; alone in a table cell or as a definition term it has no paragraph of its own
+    form = rng.choice(['![%s](img.png%s)', '![%s][f1]\n\n[f1]: img.png%s', '![%s](img.png%s)', '|h|\n|---|\n|![%s](img.png%s)|', '![%s](img.png%s)\n: definition w9', '* ![%s](img.png%s)\n* two'])
+    text = 'qa0q\n\n' + form % (alt, title) + '\n\nqb0q\n\nlast w8\n'
     src = text.encode('utf-8')
     esc = {'html': {'&': '&amp;'}, 'fodt': {'&': '&amp;'}, 'latex': {'%': '\\%', '&': '\\&', '#': '\\#', '_': '\\_'}}
     esc['beamer'] = esc['memoir'] = esc['latex']
@@ -434,8 +435,13 @@ def figure_case(r, s, rng, i):
         seg = between(out, 'qa0q', 'qb0q')
         r.stats['figure_captions_checked'] += 1
         want = ''.join(esc[fname].get(ch, ch) for ch in alt)
-        if seg is None or want not in seg.replace('img.png', ''):
+        is_fig = not ('|h|' in text or ': definition' in text or '* two' in text)          # only a figure shows its alternative text as a caption
+        if is_fig and (seg is None or want not in seg.replace('img.png', '')):
             r.violate('lost:%s:figure-caption' % fname, 'the alternative text %r of a figure is missing from the %s output' % (alt, fname), dict(requests=[rq]), (seg or '')[:400] + '\nsource: ' + core.show(src, 200))
+        err = check_nesting(fname, out)
+        if err:
+            r.violate('nesting:%s:image-alone-in-%s' % (fname, 'table-cell' if '|h|' in text else ('definition-term' if ': definition' in text else ('list-item' if '* two' in text else 'paragraph'))),
+                      '%s markup is not properly nested: %s' % (fname, err), dict(requests=[rq]), core.show(src, 300))
     r.distinct.add(core.h64(src))
     r.sets['slot_kinds'].add('figure-short-alt')
 
